@@ -258,6 +258,9 @@ class MPI(long):
         return ((self.bit_length() + 7) // 8)
 
     def to_mpibytes(self):
+        if self == 0:
+            # a zero MPI is just its two-octet bit count; int_to_bytes would add a value octet
+            return MPIs.int_to_bytes(0, 2)
         return MPIs.int_to_bytes(self.bit_length(), 2) + MPIs.int_to_bytes(self, self.byte_length())
 
     def __len__(self):
